@@ -30,6 +30,10 @@ CHECKS = {
    technique="explicit-state BFS over histories with a choice-centred alphabet (top-level, nested and in-list choices, non-members with prefix-related names); device projected on choice members after every transition and compared with the winning case computed from the reference model",
    text="Exhaustive exploration of histories in which 3 owners with distinct priorities populate different cases of the same choice, are added, changed, re-prioritised and removed, one or two per transaction, with non-member siblings abx / eth-speedx in intents and in the running config. After every applied transition each choice instance on the device may hold nodes of one case only, namely the case of the lowest-priority-number contribution among live intents, whose members must carry the ruling values.",
    note="Bounded by depth/alphabet. Several structural defects are recorded as known findings (choices in lists, nested choices, multi-intent transactions, case activated by removal); the part that is clean and guarded is single-intent case switching on a top-level choice and the non-influence of non-members."),
+ "C18": dict(level="fault_enumeration", engine="E2-faults", design="DESIGN.md §3 C18",
+   technique="exhaustive enumeration of behaviour assignments (ok / warning reply / error / rpc-error / EOF / dead) to every netconf.Driver call of the real ncTarget.Set, over real change documents, both commit-datastore settings and all 8 option combinations, with a candidate-modelling fake driver",
+   text="The production NETCONF target (hook constructor around a harness driver) is driven through the real transaction pipeline. For 6 change-document scenarios x {candidate,running} x 8 XML option combinations x every assignment of behaviours to IsAlive/EditConfig/Commit/Discard the driver call log is checked: success = exactly one edit-config (+ exactly one commit), nothing for an empty change, a discard after any failure before the error is returned, and a following fault-free transaction never commits leftovers (the fake models the candidate's pending edits). The space is finite and enumerated completely.",
+   note="The fake driver models the candidate pessimistically; rpc-error replies are surfaced as errors like the scrapligo adapter does; after EOF / dead connection nothing is demanded of the candidate."),
  "C09": dict(level="model_checking", engine=E1, design="DESIGN.md §3 C09",
    technique="explicit-state BFS over histories; from every reached state every non-empty subset of the live intents is re-submitted verbatim and the device payload in all encodings plus both stores are compared before/after",
    text="From every state reachable within the depth bound, every non-empty subset of the live intents (ruling, shadowed, mixed) is re-submitted with identical name, priority and content; the recording device renders the tree in all four encodings (8 XML option combinations) and all must be empty, the response must carry no updates/deletes and intended store, running store and device must be identical before and after.",
@@ -67,6 +71,7 @@ m = {
    "add_only": True,
  },
  "engines": [
+   {"name": "E2-faults", "path": "harness/h/check_c18.go", "serves_properties": ["C18"], "kind_free_text": "fault enumeration: every assignment of failure behaviours to the collaborator calls of one operation, each executed on the real code"},
    {"name": E1, "path": "harness/h/explore.go", "serves_properties": sorted(k for k, v in CHECKS.items() if v["engine"] == E1),
     "kind_free_text": "level-synchronous explicit-state search; successor = replay of the shortest history on a fresh real Datastore/cache instance + one operation; canonical state key without timestamps; per-property oracle plug-ins"},
  ],
